@@ -36,6 +36,7 @@ type C19Case struct {
 	Reqs     []model.ReqSpec `json:"reqs"`
 	Order1   []int           `json:"order1"`
 	Order2   []int           `json:"order2"`
+	Via      string          `json:"via,omitempty"`
 	Repeat   int             `json:"repeat"`  // how often the multiset is cycled in the long history
 	Workers  int             `json:"workers"` // concurrent part
 }
@@ -55,6 +56,7 @@ func genC19(t *rapid.T, concurrent bool) C19Case {
 	c.CORS = rapid.Bool().Draw(t, "cors")
 	c.Options = !c.CORS && rapid.Bool().Draw(t, "optionsfilter")
 	c.Encoding = rapid.Bool().Draw(t, "encoding")
+	c.Via = rapid.SampledFrom([]string{harness.ViaDispatch, harness.ViaServe}).Draw(t, "via")
 	n := rapid.IntRange(3, 40).Draw(t, "nreqs")
 	for i := 0; i < n; i++ {
 		r := gen.Request(t, c.Table, cfg)
@@ -161,14 +163,16 @@ func buildC19(c C19Case) (*restful.Container, interface{}) {
 				}
 				ws.Route(rb)
 			}
-			ct.ServeMux = newMux()
+			if c.Via != harness.ViaServe {
+				ct.ServeMux = newMux() // Dispatch only: keep net/http's mux out of the picture
+			}
 			ct.Add(ws)
 		}
 	}()
 	return ct, pan
 }
 
-func c19Send(ct *restful.Container, r model.ReqSpec, id string) string {
+func c19Send(ct *restful.Container, r model.ReqSpec, id, via string) string {
 	hr := harness.NewHTTPRequest(r, id)
 	hr.Header.Del(harness.ReqIDHeader)
 	w := httptest.NewRecorder()
@@ -179,7 +183,11 @@ func c19Send(ct *restful.Container, r model.ReqSpec, id string) string {
 				pan = fmt.Sprint(p)
 			}
 		}()
-		ct.Dispatch(w, hr)
+		if via == harness.ViaServe {
+			ct.ServeHTTP(w, hr)
+		} else {
+			ct.Dispatch(w, hr)
+		}
 	}()
 	body, derr := decodeBody(w.Header().Get("Content-Encoding"), w.Body.Bytes())
 	var hs []string
@@ -214,9 +222,9 @@ func checkC19(c C19Case, partName string) (vs []*Violation) {
 		if pan != nil {
 			return []*Violation{viol("", "building the configuration panicked: %v", pan)}
 		}
-		ref[i] = c19Send(ct, r, strconv.Itoa(i))
+		ref[i] = c19Send(ct, r, strconv.Itoa(i), c.Via)
 	}
-	labels := []string{"router_" + c.Router}
+	labels := []string{"router_" + c.Router, "via_" + c.Via}
 	if c.CORS {
 		labels = append(labels, "cors")
 	}
@@ -239,7 +247,7 @@ func checkC19(c C19Case, partName string) (vs []*Violation) {
 			pos := 0
 			for rep := 0; rep < max(c.Repeat, 1); rep++ {
 				for _, i := range order {
-					compare("sequential order #"+strconv.Itoa(oi+1), i, pos, c19Send(ct, c.Reqs[i], strconv.Itoa(i)))
+					compare("sequential order #"+strconv.Itoa(oi+1), i, pos, c19Send(ct, c.Reqs[i], strconv.Itoa(i), c.Via))
 					pos++
 				}
 			}
@@ -248,7 +256,7 @@ func checkC19(c C19Case, partName string) (vs []*Violation) {
 		ct, _ := buildC19(c)
 		harness.SetTrace(true)
 		for pos, i := range c.Order1 {
-			compare("trace logging on", i, pos, c19Send(ct, c.Reqs[i], strconv.Itoa(i)))
+			compare("trace logging on", i, pos, c19Send(ct, c.Reqs[i], strconv.Itoa(i), c.Via))
 		}
 		harness.SetTrace(false)
 		if c.Repeat > 1 {
@@ -265,7 +273,7 @@ func checkC19(c C19Case, partName string) (vs []*Violation) {
 				defer wg.Done()
 				for k := 0; k < n; k++ {
 					i := c.Order1[(k+g*3)%n]
-					got := c19Send(ct, c.Reqs[i], strconv.Itoa(i))
+					got := c19Send(ct, c.Reqs[i], strconv.Itoa(i), c.Via)
 					mu.Lock()
 					compare("concurrent from "+strconv.Itoa(c.Workers)+" goroutines", i, k, got)
 					mu.Unlock()
